@@ -240,6 +240,10 @@ class Normalize(Command):
         start = kwargs.get("StartVal", 0)
         end = kwargs.get("EndVal", 1)
 
+        # Unsigned integers ("Positive Integer" data) cannot hold the negative range min - max: it would wrap around
+        if arr.dtype.kind == "u":
+            arr = arr.astype(float)
+
         arr_min = arr.min()
         arr_max = arr.max()
 
